@@ -379,11 +379,28 @@ class Decider:
         return r, s
 
     def model_inputs(self, s):
-        m = s.model(); out = {}
+        """a model of the (satisfiable) query, pulled towards the concrete representative: symbols the violation does not
+        depend on keep the value they had on the explored run (fewer accidental coincidences when the model is replayed)"""
+        lits = {}
+        for i, (lo, hi, v, _) in self.rec.syms.items():
+            p = z3.Bool('keep_%d' % i); lits[i] = p
+            s.add(z3.Implies(p, self.ctx.sym(i) == z3.RealVal(str(Fraction(v)))))
+        remaining = set(lits)
+        m = None
+        for _ in range(8):
+            t = time.time(); r = s.check(*[lits[i] for i in sorted(remaining)]); self.stats['solver_s'] += time.time() - t
+            if r == z3.sat: m = s.model(); break
+            if r != z3.unsat: break
+            core = set(str(c) for c in s.unsat_core())
+            drop = [i for i in remaining if str(lits[i]) in core]
+            if not drop: break
+            remaining -= set(drop)
+        if m is None:
+            if s.check() != z3.sat: return self.rec.inputs()
+            m = s.model()
+        out = {}
         for i in self.rec.syms:
-            v = m.eval(self.ctx.sym(i), model_completion=True)
-            out[i] = z3val(v)
-        # completion may leave the box: clamp unmentioned symbols to their concrete value
+            out[i] = z3val(m.eval(self.ctx.sym(i), model_completion=True))
         return out
 
     def residual(self, o):
@@ -455,6 +472,28 @@ class Decider:
         if r == z3.unsat: res.update(verdict='holds', method='QF_NRA'); return res
         if r == z3.sat: res.update(verdict='violated', method='QF_NRA', inputs=self.model_inputs(s)); return res
         res.update(verdict='inconclusive', method='QF_NRA unknown/timeout'); return res
+
+
+def solve_near(s, V, target, stats=None, rounds=8):
+    """s: solver whose assertions are satisfiable; returns a model that keeps as many symbols as possible at `target`"""
+    lits = {}
+    for i, v in target.items():
+        if i not in V: continue
+        p = z3.Bool('keep_%d' % i); lits[i] = p
+        s.add(z3.Implies(p, V[i] == z3.RealVal(str(Fraction(v)))))
+    remaining = set(lits)
+    for _ in range(rounds):
+        if not remaining: break
+        t = time.time(); r = s.check(*[lits[i] for i in sorted(remaining)])
+        if stats is not None: stats['solver_s'] += time.time() - t
+        if r == z3.sat: return s.model()
+        if r != z3.unsat: break
+        core = set(str(c) for c in s.unsat_core())
+        drop = [i for i in remaining if str(lits[i]) in core]
+        if not drop: break
+        remaining -= set(drop)
+    if s.check() == z3.sat: return s.model()
+    return None
 
 
 def z3val(v):
@@ -574,15 +613,18 @@ class Explorer:
                 self.coverage_complete = True; break
             if r != z3.sat:
                 self.cover_unknown = True; break
-            inputs = self._model_inputs(self.cover.model())
+            self.cover.push()
+            m = solve_near(self.cover, self.V, self.defaults, self.stats)
+            inputs = self._model_inputs(m if m is not None else self.cover.model())
+            self.cover.pop()
         return npaths
 
     def run_tree(self, handle):
         from collections import deque
-        queue = deque([(None, 0, None)])
+        queue = deque([(None, 0, None, None)])
         npaths = 0
         while queue and npaths < self.max_paths:
-            prefix, bound, expect = queue.popleft()
+            prefix, bound, expect, near = queue.popleft()
             if prefix is None:
                 inputs = {}
             else:
@@ -590,7 +632,8 @@ class Explorer:
                 t = time.time(); r = s.check(); self.stats['solver_s'] += time.time() - t; self.stats['queries'] += 1
                 if r == z3.unsat: self.infeasible += 1; continue
                 if r != z3.sat: self.cover_unknown = True; continue
-                inputs = self._model_inputs(s.model())
+                m = solve_near(s, self.V, near, self.stats) if near else s.model()
+                inputs = self._model_inputs(m if m is not None else s.model())
             rec, info, dec = self._one(handle, inputs, npaths)
             npaths += 1
             if rec is None: self.cover_unknown = True; continue
@@ -609,7 +652,7 @@ class Explorer:
                 if not ok: self.diverged += 1; bound = 0
             cs = [c for _, c in atoms]
             for k in range(bound, len(atoms)):
-                queue.append((defs + cs[:k] + [z3.Not(cs[k])], k + 1, shape[:k + 1]))
+                queue.append((defs + cs[:k] + [z3.Not(cs[k])], k + 1, shape[:k + 1], rec.inputs()))
         self.coverage_complete = (not queue) and not self.cover_unknown and self.diverged == 0
         self.pending = len(queue)
         return npaths
